@@ -97,6 +97,7 @@ func c16(r *core.Report) {
 	r.Assumption("equivalence of verdicts before and after, injectivity of generated names beyond the resolver's inputs and the reload with external references disallowed are not decided")
 	fam, adders := internalizeFamily(p)
 	c16AddFirst(r, adders)
+	c16VisitedCtx(r, adders)
 
 	units, _ := refUnits(p, "openapi3")
 	r.RunRule("C16.cover", "internalising reaches every reference position: for every path of fields from a unit to a field that can hold a $ref (same enumeration as C02.cover), the unit's deref function hands that field to the add*ToSpec of the position's wrapper (path items: to derefPaths); units without reference positions of their own need no walker", 29, func() {
@@ -799,46 +800,7 @@ func c16AddFirst(r *core.Report, adders map[*types.Named]*types.Func) {
 		for _, f := range adders {
 			isAdder[f] = true
 		}
-		// visited-set tests: bool methods with one pointer parameter whose body indexes a map with it
-		// and stores into the same map
-		visitedTest := map[*types.Func]bool{}
-		for _, d := range p.AllDecls("openapi3") {
-			if d.Recv == nil || d.Type.Results == nil || len(d.Type.Results.List) != 1 || d.Type.Params.NumFields() != 1 || d.Body == nil {
-				continue
-			}
-			if b, ok := info.TypeOf(d.Type.Results.List[0].Type).Underlying().(*types.Basic); !ok || b.Kind() != types.Bool {
-				continue
-			}
-			if len(d.Type.Params.List[0].Names) != 1 {
-				continue
-			}
-			prm := info.ObjectOf(d.Type.Params.List[0].Names[0])
-			lookups, stores := false, false
-			ast.Inspect(d.Body, func(n ast.Node) bool {
-				switch x := n.(type) {
-				case *ast.IndexExpr:
-					if id, ok := ast.Unparen(x.Index).(*ast.Ident); ok && info.ObjectOf(id) == prm {
-						if _, isMap := info.TypeOf(x.X).Underlying().(*types.Map); isMap {
-							lookups = true
-						}
-					}
-				case *ast.AssignStmt:
-					for _, l := range x.Lhs {
-						if ix, ok := ast.Unparen(l).(*ast.IndexExpr); ok {
-							if id, ok := ast.Unparen(ix.Index).(*ast.Ident); ok && info.ObjectOf(id) == prm {
-								stores = true
-							}
-						}
-					}
-				}
-				return true
-			})
-			if lookups && stores {
-				if f, ok := info.Defs[d.Name].(*types.Func); ok {
-					visitedTest[f] = true
-				}
-			}
-		}
+		visitedTest := visitedTests(p)
 		if len(visitedTest) < 2 {
 			core.Fail("only %d visited-set test methods found in openapi3", len(visitedTest))
 		}
@@ -862,7 +824,7 @@ func c16AddFirst(r *core.Report, adders map[*types.Named]*types.Func) {
 				bad := ""
 				for _, a := range core.Atoms(core.GuardsAt(info, d.Body, c)) {
 					ast.Inspect(a.Expr, func(m ast.Node) bool {
-						if vc, ok := m.(*ast.CallExpr); ok && len(vc.Args) == 1 && len(c.Args) > 0 {
+						if vc, ok := m.(*ast.CallExpr); ok && len(vc.Args) >= 1 && len(c.Args) > 0 {
 							if vf := core.CalleeOf(info, vc); vf != nil && visitedTest[vf] {
 								// the test is about the object the reference being added leads to
 								// (same root variable), not about the object that contains the reference
@@ -884,4 +846,158 @@ func c16AddFirst(r *core.Report, adders map[*types.Named]*types.Func) {
 			})
 		}
 	})
+}
+
+// c16VisitedCtx: the meaning of a "#/components/..." reference depends on the document the object
+// that holds it belongs to. An object can be reached first through a reference within the root
+// document and later as part of the external document it really belongs to; a visited set that
+// ignores this context stops the second walk, and the object's own references are never rewritten.
+func c16VisitedCtx(r *core.Report, adders map[*types.Named]*types.Func) {
+	p := r.Prog
+	info := p.Pkg("openapi3").TypesInfo
+	r.RunRule("C16.visitedctx", "the visited sets know the context: every visited-set test called from a function that carries the external-document flag (the bool it hands to add*ToSpec) receives an argument computed from that flag, and the test method's decision depends on its bool parameter — an object walked in the root context is walked again in the external one", 3, func() {
+		isAdder := map[*types.Func]bool{}
+		for _, f := range adders {
+			isAdder[f] = true
+		}
+		vts := visitedTests(p)
+		n := 0
+		for _, d := range p.AllDecls("openapi3") {
+			if d.Body == nil {
+				continue
+			}
+			// the context flag(s): bool parameters or locals that are passed as the last argument of an adder
+			ctx := map[types.Object]bool{}
+			ast.Inspect(d.Body, func(nd ast.Node) bool {
+				if c, ok := nd.(*ast.CallExpr); ok && len(c.Args) > 0 {
+					if f := core.CalleeOf(info, c); f != nil && isAdder[f] {
+						ast.Inspect(c.Args[len(c.Args)-1], func(m ast.Node) bool {
+							if id, ok := m.(*ast.Ident); ok {
+								if o := info.ObjectOf(id); o != nil {
+									if b, ok := o.Type().Underlying().(*types.Basic); ok && b.Kind() == types.Bool {
+										ctx[o] = true
+									}
+								}
+							}
+							return true
+						})
+					}
+				}
+				return true
+			})
+			if len(ctx) == 0 {
+				continue
+			}
+			k := 0
+			ast.Inspect(d.Body, func(nd ast.Node) bool {
+				c, ok := nd.(*ast.CallExpr)
+				if !ok {
+					return true
+				}
+				f := core.CalleeOf(info, c)
+				if f == nil || !vts[f] {
+					return true
+				}
+				n++
+				k++
+				key := fmt.Sprintf("visitedctx:%s#%d", core.FuncName(d), k)
+				uses := false
+				for _, a := range c.Args {
+					ast.Inspect(a, func(m ast.Node) bool {
+						if id, ok := m.(*ast.Ident); ok {
+							if o := info.ObjectOf(id); o != nil {
+								if b, ok := o.Type().Underlying().(*types.Basic); ok && b.Kind() == types.Bool {
+									uses = true
+								}
+							}
+						}
+						return true
+					})
+				}
+				// and the method looks at its bool parameter
+				looks := false
+				if fd := p.Decl(f); fd != nil && fd.Body != nil {
+					for _, fl := range fd.Type.Params.List {
+						for _, nm := range fl.Names {
+							o := info.ObjectOf(nm)
+							if b, ok := o.Type().Underlying().(*types.Basic); !ok || b.Kind() != types.Bool {
+								continue
+							}
+							ast.Inspect(fd.Body, func(m ast.Node) bool {
+								switch x := m.(type) {
+								case *ast.IfStmt:
+									ast.Inspect(x.Cond, func(q ast.Node) bool {
+										if id, ok := q.(*ast.Ident); ok && info.ObjectOf(id) == o {
+											looks = true
+										}
+										return true
+									})
+								}
+								return true
+							})
+						}
+					}
+				}
+				if uses && looks {
+					r.OK(key, p.Pos(c.Pos()), "the test is told, and takes into account, whether the walk is inside an external document")
+				} else {
+					r.Bad(key, p.Pos(c.Pos()), fmt.Sprintf("%s decides on the object alone: an object of an external document that an earlier component of the root document refers to is marked visited in the root context, where its own `#/components/...` references are left alone, and the later walk in the external context — the one that would rewrite them — is skipped; the internalised document then refers to components that do not exist", core.ExprStr(c)))
+				}
+				return true
+			})
+		}
+		if n == 0 {
+			core.Fail("no visited-set test call found in a function that carries the external-document flag")
+		}
+	})
+}
+
+// visitedTests: the visited-set test methods of package openapi3 -- bool methods whose first
+// parameter is a pointer that the body looks up in a map and records there.
+func visitedTests(p *core.Prog) map[*types.Func]bool {
+	info := p.Pkg("openapi3").TypesInfo
+	// visited-set tests: bool methods with one pointer parameter whose body indexes a map with it
+	// and stores into the same map
+	visitedTest := map[*types.Func]bool{}
+	for _, d := range p.AllDecls("openapi3") {
+		if d.Recv == nil || d.Type.Results == nil || len(d.Type.Results.List) != 1 || d.Type.Params.NumFields() < 1 || d.Body == nil {
+			continue
+		}
+		if b, ok := info.TypeOf(d.Type.Results.List[0].Type).Underlying().(*types.Basic); !ok || b.Kind() != types.Bool {
+			continue
+		}
+		if len(d.Type.Params.List[0].Names) != 1 {
+			continue
+		}
+		if _, isPtr := info.TypeOf(d.Type.Params.List[0].Type).(*types.Pointer); !isPtr {
+			continue
+		}
+		prm := info.ObjectOf(d.Type.Params.List[0].Names[0])
+		lookups, stores := false, false
+		ast.Inspect(d.Body, func(n ast.Node) bool {
+			switch x := n.(type) {
+			case *ast.IndexExpr:
+				if id, ok := ast.Unparen(x.Index).(*ast.Ident); ok && info.ObjectOf(id) == prm {
+					if _, isMap := info.TypeOf(x.X).Underlying().(*types.Map); isMap {
+						lookups = true
+					}
+				}
+			case *ast.AssignStmt:
+				for _, l := range x.Lhs {
+					if ix, ok := ast.Unparen(l).(*ast.IndexExpr); ok {
+						if id, ok := ast.Unparen(ix.Index).(*ast.Ident); ok && info.ObjectOf(id) == prm {
+							stores = true
+						}
+					}
+				}
+			}
+			return true
+		})
+		if lookups && stores {
+			if f, ok := info.Defs[d.Name].(*types.Func); ok {
+				visitedTest[f] = true
+			}
+		}
+	}
+	return visitedTest
 }
